@@ -133,7 +133,7 @@ def handle (j : J) : Except String J := do
   let srcs : Nat → Src := fun i => match sources[i]? with
     | some s => s
     | none => Src.init [] false          -- never addressed: every source index in the request is < n
-  let m := run (mkBeh tbl) fuel (M.init srcs ops)
+  let m := drive (mkBeh tbl) fuel (M.init srcs ops)
   let idx := List.range n
   pure (J.mk [("finished", .bool m.finished),
               ("log", .arr (m.log.filterMap evJ)),
